@@ -338,3 +338,2206 @@ TWINS = [
         "                ):\n")]},
     {"name": "status-split-by-partition", "edits": [(S, "                try:\n                    code_str, msg = status_sent.split(None, 1)\n                except ValueError:\n                    code_str, msg = status_sent, \"\"\n", '                code_str, _, msg = status_sent.partition(" ")\n')]},
 ]
+
+
+# ---------------------------------------------------------------------
+# round 3: restructurings of readinto / read_chunk_len / make_environ / run_wsgi that are accepted since the third
+# robustness round (TWINS) and, per accepted shape, a change that breaks the property in that shape (MUTANTS)
+
+_R3_OLD_1 = r'''    def readinto(self, buf: bytearray) -> int:  # type: ignore
+        read = 0
+        while not self._done and read < len(buf):
+            if self._len == 0:
+                # This is the first chunk or we fully consumed the previous
+                # one. Read the next length of the next chunk
+                self._len = self.read_chunk_len()
+
+            if self._len == 0:
+                # Found the final chunk of size 0. The stream is now exhausted,
+                # but there is still a final newline that should be consumed
+                self._done = True
+
+            if self._len > 0:
+                # There is data (left) in this chunk, so append it to the
+                # buffer. If this operation fully consumes the chunk, this will
+                # reset self._len to 0.
+                n = min(len(buf), self._len)
+
+                # If (read + chunk size) becomes more than len(buf), buf will
+                # grow beyond the original size and read more data than
+                # required. So only read as much data as can fit in buf.
+                if read + n > len(buf):
+                    n = len(buf) - read
+
+                data = self._rfile.read(n)
+
+                # A short read means the stream ended inside the chunk. Don't
+                # splice it into buf, that would resize the caller's buffer.
+                if len(data) != n:
+                    raise OSError("Unexpected end of chunked data")
+
+                buf[read : read + n] = data
+                self._len -= n
+                read += n
+
+            if self._len == 0:
+                # Skip the terminating newline of a chunk that has been fully
+                # consumed. This also applies to the 0-sized final chunk
+                terminator = self._rfile.readline()
+                if terminator not in (b"\n", b"\r\n", b"\r"):
+                    raise OSError("Missing chunk terminating newline")
+
+        return read
+
+
+'''
+_R3_OLD_2 = r'''    def read_chunk_len(self) -> int:
+        try:
+            line = self._rfile.readline().decode("latin1")
+            _len = int(line.strip(), 16)
+        except ValueError as e:
+            raise OSError("Invalid chunk header") from e
+        if _len < 0:
+            raise OSError("Negative chunk length not allowed")
+        return _len
+'''
+_R3_OLD_3 = r'''        for key, value in self.headers.items():
+            if "_" in key:
+                continue
+
+            key = key.upper().replace("-", "_")
+            value = value.replace("\r\n", "")
+            if key not in ("CONTENT_TYPE", "CONTENT_LENGTH"):
+                key = f"HTTP_{key}"
+                if key in environ:
+                    value = f"{environ[key]},{value}"
+            environ[key] = value
+
+        if environ.get("HTTP_TRANSFER_ENCODING", "").strip().lower() == "chunked":
+            environ["wsgi.input_terminated"] = True
+            environ["wsgi.input"] = DechunkedInput(environ["wsgi.input"])
+
+'''
+_R3_OLD_4 = r'''        if not request_url.scheme and request_url.netloc:
+            path_info = f"/{request_url.netloc}{request_url.path}"
+        else:
+            path_info = request_url.path
+
+        path_info = unquote(path_info)
+'''
+_R3_OLD_5 = r'''        for key, value in self.headers.items():
+            if "_" in key:
+                continue
+
+            key = key.upper().replace("-", "_")
+            value = value.replace("\r\n", "")
+            if key not in ("CONTENT_TYPE", "CONTENT_LENGTH"):
+                key = f"HTTP_{key}"
+                if key in environ:
+                    value = f"{environ[key]},{value}"
+            environ[key] = value
+
+'''
+_R3_OLD_6 = r'''            if data:
+                if chunk_response:
+                    self.wfile.write(hex(len(data))[2:].encode())
+                    self.wfile.write(b"\r\n")
+
+                self.wfile.write(data)
+
+                if chunk_response:
+                    self.wfile.write(b"\r\n")
+'''
+_R3_OLD_7 = r'''                for data in application_iter:
+                    write(data)
+                if not headers_sent:
+                    write(b"")
+                if chunk_response:
+                    self.wfile.write(b"0\r\n\r\n")
+'''
+_R3_OLD_8 = r'''                if (
+                    not (
+                        "content-length" in header_keys
+                        or environ["REQUEST_METHOD"] == "HEAD"
+                        or (100 <= code < 200)
+                        or code in {204, 304}
+                    )
+                    and self.protocol_version >= "HTTP/1.1"
+                ):
+'''
+
+MUTANTS += [
+    {"name": 'r3-size-not-minus-read', "expect": 'R19.3', "edits": [
+        (S, _R3_OLD_1, r'''    def readinto(self, buf: bytearray) -> int:  # type: ignore
+        size = len(buf)
+        read = 0
+        while not self._done and read < size:
+            if self._len == 0:
+                self._len = self.read_chunk_len()
+
+            if self._len == 0:
+                self._done = True
+
+            if self._len > 0:
+                n = min(size, self._len)
+                data = self._rfile.read(n)
+                if len(data) != n:
+                    raise OSError("Unexpected end of chunked data")
+                end = read + n
+                buf[read:end] = data
+                read = end
+                self._len -= n
+                if self._len > 0:
+                    continue
+            terminator = self._rfile.readline()
+            if terminator not in (b"\n", b"\r\n", b"\r"):
+                raise OSError("Missing chunk terminating newline")
+
+        return read
+
+'''),
+    ]},
+    {"name": 'r3-size-rebound-in-loop', "expect": 'R19.3', "edits": [
+        (S, _R3_OLD_1, r'''    def readinto(self, buf: bytearray) -> int:  # type: ignore
+        size = len(buf)
+        read = 0
+        while not self._done and read < size:
+            if self._len == 0:
+                self._len = self.read_chunk_len()
+
+            if self._len == 0:
+                self._done = True
+
+            if self._len > 0:
+                n = min(size - read, self._len)
+                data = self._rfile.read(n)
+                if len(data) != n:
+                    raise OSError("Unexpected end of chunked data")
+                end = read + n
+                buf[read:end] = data
+                read = end
+                self._len -= n
+                size = size + n
+                if self._len > 0:
+                    continue
+            terminator = self._rfile.readline()
+            if terminator not in (b"\n", b"\r\n", b"\r"):
+                raise OSError("Missing chunk terminating newline")
+
+        return read
+
+'''),
+    ]},
+    {"name": 'r3-ifexp-max', "expect": 'R19.3', "edits": [
+        (S, _R3_OLD_1, r'''    def readinto(self, buf: bytearray) -> int:  # type: ignore
+        size = len(buf)
+        read = 0
+        while not self._done and read < size:
+            if self._len == 0:
+                self._len = self.read_chunk_len()
+
+            if self._len == 0:
+                self._done = True
+
+            if self._len > 0:
+                space = size - read
+                n = self._len if self._len > space else space
+                data = self._rfile.read(n)
+                if len(data) != n:
+                    raise OSError("Unexpected end of chunked data")
+                buf[read : read + n] = data
+                read, self._len = read + n, self._len - n
+
+            if self._len == 0:
+                terminator = self._rfile.readline()
+                if terminator not in (b"\n", b"\r\n", b"\r"):
+                    raise OSError("Missing chunk terminating newline")
+
+        return read
+
+'''),
+    ]},
+    {"name": 'r3-continue-when-consumed', "expect": 'R19.3', "edits": [
+        (S, _R3_OLD_1, r'''    def readinto(self, buf: bytearray) -> int:  # type: ignore
+        size = len(buf)
+        read = 0
+        while not self._done and read < size:
+            if self._len == 0:
+                self._len = self.read_chunk_len()
+
+            if self._len == 0:
+                self._done = True
+
+            if self._len > 0:
+                n = min(size - read, self._len)
+                data = self._rfile.read(n)
+                if len(data) != n:
+                    raise OSError("Unexpected end of chunked data")
+                end = read + n
+                buf[read:end] = data
+                read = end
+                self._len -= n
+                if self._len == 0:
+                    continue
+            terminator = self._rfile.readline()
+            if terminator not in (b"\n", b"\r\n", b"\r"):
+                raise OSError("Missing chunk terminating newline")
+
+        return read
+
+'''),
+    ]},
+    {"name": 'r3-tuple-swap', "expect": 'R19.3', "edits": [
+        (S, _R3_OLD_1, r'''    def readinto(self, buf: bytearray) -> int:  # type: ignore
+        read = 0
+        while not self._done and read < len(buf):
+            if self._len == 0:
+                self._len = self.read_chunk_len()
+
+            if self._len == 0:
+                self._done = True
+
+            if self._len > 0:
+                n = min(len(buf) - read, self._len)
+                data = self._rfile.read(n)
+                if len(data) != n:
+                    raise OSError("Unexpected end of chunked data")
+                buf[read : read + n] = data
+                read, self._len = self._len - n, read + n
+
+            if self._len == 0:
+                terminator = self._rfile.readline()
+                if terminator not in (b"\n", b"\r\n", b"\r"):
+                    raise OSError("Missing chunk terminating newline")
+
+        return read
+
+'''),
+    ]},
+    {"name": 'r3-remaining-residual-wrong', "expect": 'R19.3', "edits": [
+        (S, _R3_OLD_1, r'''    def readinto(self, buf: bytearray) -> int:  # type: ignore
+        read = 0
+        while not self._done and read < len(buf):
+            if self._len == 0:
+                self._len = self.read_chunk_len()
+
+            if self._len == 0:
+                self._done = True
+
+            if self._len > 0:
+                n = min(len(buf) - read, self._len)
+                remaining = self._len - n - 1
+                data = self._rfile.read(n)
+                if len(data) < n:
+                    raise OSError("Unexpected end of chunked data")
+                buf[read : read + n] = data
+                self._len = remaining
+                read += n
+
+            if self._len == 0:
+                terminator = self._rfile.readline()
+                if terminator not in (b"\n", b"\r\n", b"\r"):
+                    raise OSError("Missing chunk terminating newline")
+
+        return read
+
+'''),
+    ]},
+    {"name": 'r3-term-chain-or', "expect": 'R19.3', "edits": [
+        (S, r'''                terminator = self._rfile.readline()
+                if terminator not in (b"\n", b"\r\n", b"\r"):
+                    raise OSError("Missing chunk terminating newline")
+''', r'''                terminator = self._rfile.readline()
+                if terminator != b"\r\n" or terminator != b"\n":
+                    raise OSError("Missing chunk terminating newline")
+'''),
+    ]},
+    {"name": 'r3-term-module-constant-eof', "expect": 'R19.3', "edits": [
+        (S, r'''                terminator = self._rfile.readline()
+                if terminator not in (b"\n", b"\r\n", b"\r"):
+                    raise OSError("Missing chunk terminating newline")
+''', r'''                terminator = self._rfile.readline()
+                if terminator not in _CHUNK_TERMINATORS:
+                    raise OSError("Missing chunk terminating newline")
+'''),
+        (S, 'class DechunkedInput(io.RawIOBase):\n', r'''_CHUNK_TERMINATORS = frozenset((b"\n", b"\r\n", b"\r", b""))
+
+
+class DechunkedInput(io.RawIOBase):
+'''),
+    ]},
+    {"name": 'r3-term-discarded', "expect": 'R19.3', "edits": [
+        (S, r'''                terminator = self._rfile.readline()
+                if terminator not in (b"\n", b"\r\n", b"\r"):
+                    raise OSError("Missing chunk terminating newline")
+''', '                self._rfile.readline()\n'),
+    ]},
+    {"name": 'r3-term-endswith', "expect": 'R19.3', "edits": [
+        (S, r'''                terminator = self._rfile.readline()
+                if terminator not in (b"\n", b"\r\n", b"\r"):
+                    raise OSError("Missing chunk terminating newline")
+''', r'''                terminator = self._rfile.readline()
+                if not terminator.endswith(b"\n"):
+                    raise OSError("Missing chunk terminating newline")
+'''),
+    ]},
+    {"name": 'r3-neg-check-in-caller-too-late', "expect": 'R19.3', "edits": [
+        (S, _R3_OLD_2, r'''    def read_chunk_len(self) -> int:
+        try:
+            line = self._rfile.readline().decode("latin1")
+            return int(line.strip(), 16)
+        except ValueError as e:
+            raise OSError("Invalid chunk header") from e
+'''),
+        (S, r'''            if self._len == 0:
+                # This is the first chunk or we fully consumed the previous
+                # one. Read the next length of the next chunk
+                self._len = self.read_chunk_len()
+''', r'''            if self._len == 0:
+                self._len = self.read_chunk_len()
+                if self._len < -1:
+                    raise OSError("Negative chunk length not allowed")
+'''),
+    ]},
+    {"name": 'r3-conversion-in-caller-swallowed', "expect": 'R19.3', "edits": [
+        (S, _R3_OLD_2, r'''    def read_chunk_len(self) -> int:
+        line = self._rfile.readline().decode("latin1")
+        _len = int(line.strip(), 16)
+        if _len < 0:
+            raise OSError("Negative chunk length not allowed")
+        return _len
+'''),
+        (S, r'''            if self._len == 0:
+                # This is the first chunk or we fully consumed the previous
+                # one. Read the next length of the next chunk
+                self._len = self.read_chunk_len()
+''', r'''            if self._len == 0:
+                try:
+                    self._len = self.read_chunk_len()
+                except ValueError as e:
+                    break
+'''),
+    ]},
+    {"name": 'r3-neg-check-nowhere', "expect": 'R19.3', "edits": [
+        (S, _R3_OLD_2, r'''    def read_chunk_len(self) -> int:
+        try:
+            line = self._rfile.readline().decode("latin1")
+            return int(line.strip(), 16)
+        except ValueError as e:
+            raise OSError("Invalid chunk header") from e
+'''),
+    ]},
+    {"name": 'r3-sep-dict-join-tests-environ', "expect": 'R19.4', "edits": [
+        (S, _R3_OLD_3, r'''        received = {}
+        for key, value in self.headers.items():
+            if "_" in key:
+                continue
+
+            key = key.upper().replace("-", "_")
+            value = value.replace("\r\n", "")
+            if key not in ("CONTENT_TYPE", "CONTENT_LENGTH"):
+                key = f"HTTP_{key}"
+                if key in environ:
+                    value = f"{received[key]},{value}"
+            received[key] = value
+
+        environ.update(received)
+
+        if environ.get("HTTP_TRANSFER_ENCODING", "").strip().lower() == "chunked":
+            environ["wsgi.input_terminated"] = True
+            environ["wsgi.input"] = DechunkedInput(environ["wsgi.input"])
+
+'''),
+    ]},
+    {"name": 'r3-sep-dict-never-merged', "expect": 'R19.4', "edits": [
+        (S, _R3_OLD_3, r'''        received = {}
+        for key, value in self.headers.items():
+            if "_" in key:
+                continue
+
+            key = key.upper().replace("-", "_")
+            value = value.replace("\r\n", "")
+            if key not in ("CONTENT_TYPE", "CONTENT_LENGTH"):
+                key = f"HTTP_{key}"
+                if key in received:
+                    value = f"{received[key]},{value}"
+            received[key] = value
+
+        if environ.get("HTTP_TRANSFER_ENCODING", "").strip().lower() == "chunked":
+            environ["wsgi.input_terminated"] = True
+            environ["wsgi.input"] = DechunkedInput(environ["wsgi.input"])
+
+'''),
+    ]},
+    {"name": 'r3-sep-dict-merged-conditionally', "expect": 'R19.4', "edits": [
+        (S, _R3_OLD_3, r'''        received = {}
+        for key, value in self.headers.items():
+            if "_" in key:
+                continue
+
+            key = key.upper().replace("-", "_")
+            value = value.replace("\r\n", "")
+            if key not in ("CONTENT_TYPE", "CONTENT_LENGTH"):
+                key = f"HTTP_{key}"
+                if key in received:
+                    value = f"{received[key]},{value}"
+            received[key] = value
+
+        if self.command != "GET":
+            environ.update(received)
+
+        if environ.get("HTTP_TRANSFER_ENCODING", "").strip().lower() == "chunked":
+            environ["wsgi.input_terminated"] = True
+            environ["wsgi.input"] = DechunkedInput(environ["wsgi.input"])
+
+'''),
+    ]},
+    {"name": 'r3-sep-dict-merge-before-loop', "expect": 'R19.4', "edits": [
+        (S, _R3_OLD_3, r'''        received = {}
+        environ.update(received)
+        for key, value in self.headers.items():
+            if "_" in key:
+                continue
+
+            key = key.upper().replace("-", "_")
+            value = value.replace("\r\n", "")
+            if key not in ("CONTENT_TYPE", "CONTENT_LENGTH"):
+                key = f"HTTP_{key}"
+                if key in received:
+                    value = f"{received[key]},{value}"
+            received[key] = value
+
+        if environ.get("HTTP_TRANSFER_ENCODING", "").strip().lower() == "chunked":
+            environ["wsgi.input_terminated"] = True
+            environ["wsgi.input"] = DechunkedInput(environ["wsgi.input"])
+
+'''),
+    ]},
+    {"name": 'r3-sep-dict-te-lookup-before-merge', "expect": 'R19.4', "edits": [
+        (S, _R3_OLD_3, r'''        received = {}
+        for key, value in self.headers.items():
+            if "_" in key:
+                continue
+
+            key = key.upper().replace("-", "_")
+            value = value.replace("\r\n", "")
+            if key not in ("CONTENT_TYPE", "CONTENT_LENGTH"):
+                key = f"HTTP_{key}"
+                if key in received:
+                    value = f"{received[key]},{value}"
+            received[key] = value
+
+        if environ.get("HTTP_TRANSFER_ENCODING", "").strip().lower() == "chunked":
+            environ["wsgi.input_terminated"] = True
+            environ["wsgi.input"] = DechunkedInput(environ["wsgi.input"])
+
+        environ.update(received)
+
+'''),
+    ]},
+    {"name": 'r3-sep-dict-env-wins-clash', "expect": 'R19.4', "edits": [
+        (S, _R3_OLD_3, r'''        received = {}
+        for key, value in self.headers.items():
+            if "_" in key:
+                continue
+
+            key = key.upper().replace("-", "_")
+            value = value.replace("\r\n", "")
+            if key not in ("CONTENT_TYPE", "CONTENT_LENGTH"):
+                key = f"HTTP_{key}"
+                if key in received:
+                    value = f"{received[key]},{value}"
+            received[key] = value
+
+        environ = {**received, **environ}
+
+        if environ.get("HTTP_TRANSFER_ENCODING", "").strip().lower() == "chunked":
+            environ["wsgi.input_terminated"] = True
+            environ["wsgi.input"] = DechunkedInput(environ["wsgi.input"])
+
+'''),
+        (S, '            "SCRIPT_NAME": "",\n', r'''            "SCRIPT_NAME": "",
+            "CONTENT_TYPE": "",
+'''),
+    ]},
+    {"name": 'r3-wrap-other-stream', "expect": 'R19.4', "edits": [
+        (S, _R3_OLD_3, r'''        received = {}
+        for key, value in self.headers.items():
+            if "_" in key:
+                continue
+
+            key = key.upper().replace("-", "_")
+            value = value.replace("\r\n", "")
+            if key not in ("CONTENT_TYPE", "CONTENT_LENGTH"):
+                key = f"HTTP_{key}"
+                if key in received:
+                    value = f"{received[key]},{value}"
+            received[key] = value
+
+        environ.update(received)
+
+        if environ.get("HTTP_TRANSFER_ENCODING", "").strip().lower() == "chunked":
+            environ["wsgi.input_terminated"] = True
+            environ["wsgi.input"] = DechunkedInput(self.wfile)
+
+'''),
+    ]},
+    {"name": 'r3-path-prefix-when-scheme', "expect": 'R19.4', "edits": [
+        (S, _R3_OLD_4, r'''        prefix = ""
+        if request_url.netloc:
+            prefix = "/" + request_url.netloc
+        path_info = unquote(prefix + request_url.path)
+'''),
+    ]},
+    {"name": 'r3-path-hoisted-wrong-polarity', "expect": 'R19.4', "edits": [
+        (S, _R3_OLD_4, r'''        has_scheme = bool(request_url.scheme)
+        has_netloc = bool(request_url.netloc)
+        if has_netloc and has_scheme:
+            path_info = f"/{request_url.netloc}{request_url.path}"
+        else:
+            path_info = request_url.path
+
+        path_info = unquote(path_info)
+'''),
+    ]},
+    {"name": 'r3-path-no-slash', "expect": 'R19.4', "edits": [
+        (S, _R3_OLD_4, r'''        segments = [request_url.path]
+        if not request_url.scheme and request_url.netloc:
+            segments = [request_url.netloc, request_url.path]
+        path_info = unquote("".join(segments))
+'''),
+    ]},
+    {"name": 'r3-wrap-two-ifs-differ', "expect": 'R19.4', "edits": [
+        (S, r'''        if environ.get("HTTP_TRANSFER_ENCODING", "").strip().lower() == "chunked":
+            environ["wsgi.input_terminated"] = True
+            environ["wsgi.input"] = DechunkedInput(environ["wsgi.input"])
+''', r'''        coding = environ.get("HTTP_TRANSFER_ENCODING", "").strip().lower()
+        if coding == "chunked":
+            environ["wsgi.input_terminated"] = True
+        if coding:
+            environ["wsgi.input"] = DechunkedInput(environ["wsgi.input"])
+'''),
+    ]},
+    {"name": 'r3-entries-hoisted-unquoted-query', "expect": 'R19.4', "edits": [
+        (S, '        environ: WSGIEnvironment = {\n', r'''        query_string = _wsgi_encoding_dance(unquote(request_url.query))
+        environ: WSGIEnvironment = {
+'''),
+        (S, '"QUERY_STRING": _wsgi_encoding_dance(request_url.query),', '"QUERY_STRING": query_string,'),
+    ]},
+    {"name": 'r3-loop-key-helper-prefixes-content-length', "expect": 'R19.4', "edits": [
+        (S, _R3_OLD_5, r'''        for key, value in self.headers.items():
+            if "_" in key:
+                continue
+
+            key = _environ_key(key)
+            value = value.replace("\r\n", "")
+            if key.startswith("HTTP_") and key in environ:
+                value = f"{environ[key]},{value}"
+            environ[key] = value
+
+'''),
+        (S, 'class WSGIRequestHandler(BaseHTTPRequestHandler):\n', r'''def _environ_key(name: str) -> str:
+    key = name.upper().replace("-", "_")
+    if key == "CONTENT_TYPE":
+        return key
+    return f"HTTP_{key}"
+
+
+class WSGIRequestHandler(BaseHTTPRequestHandler):
+'''),
+    ]},
+    {"name": 'r3-loop-generator-filter-on-canonical', "expect": 'R19.4', "edits": [
+        (S, _R3_OLD_5, r'''        for key, value in ((k.upper().replace("-", "_"), v) for k, v in self.headers.items()):
+            if "_" in key:
+                continue
+            value = value.replace("\r\n", "")
+            if key not in ("CONTENT_TYPE", "CONTENT_LENGTH"):
+                key = f"HTTP_{key}"
+                if key in environ:
+                    value = f"{environ[key]},{value}"
+            environ[key] = value
+
+'''),
+    ]},
+    {"name": 'r3-loop-skip-helper-inverted', "expect": 'R19.4', "edits": [
+        (S, _R3_OLD_5, r'''        for key, value in self.headers.items():
+            if not self._skip_header(key):
+                continue
+
+            key = key.upper().replace("-", "_")
+            value = value.replace("\r\n", "")
+            if key not in ("CONTENT_TYPE", "CONTENT_LENGTH"):
+                key = f"HTTP_{key}"
+                if key in environ:
+                    value = f"{environ[key]},{value}"
+            environ[key] = value
+
+'''),
+        (S, '    def make_environ(self) -> WSGIEnvironment:\n', r'''    def _skip_header(self, name: str) -> bool:
+        return "_" in name
+
+    def make_environ(self) -> WSGIEnvironment:
+'''),
+    ]},
+    {"name": 'r3-loop-splitlines', "expect": 'R19.4', "edits": [
+        (S, _R3_OLD_5, r'''        for key, value in self.headers.items():
+            if "_" in key:
+                continue
+
+            key = key.upper().replace("-", "_")
+            value = "".join(value.splitlines())
+            if key not in ("CONTENT_TYPE", "CONTENT_LENGTH"):
+                key = f"HTTP_{key}"
+                if key in environ:
+                    value = f"{environ[key]},{value}"
+            environ[key] = value
+
+'''),
+    ]},
+    {"name": 'r3-cl-flag-loop-case', "expect": 'R19.1', "edits": [
+        (S, r'''                header_keys = set()
+                for key, value in headers_sent:
+                    self.send_header(key, value)
+                    header_keys.add(key.lower())
+''', r'''                has_length = False
+                for key, value in headers_sent:
+                    self.send_header(key, value)
+                    if key == "content-length":
+                        has_length = True
+'''),
+        (S, '                        "content-length" in header_keys\n', '                        has_length\n'),
+    ]},
+    {"name": 'r3-cl-setcomp-values', "expect": 'R19.1', "edits": [
+        (S, r'''                header_keys = set()
+                for key, value in headers_sent:
+                    self.send_header(key, value)
+                    header_keys.add(key.lower())
+''', r'''                for key, value in headers_sent:
+                    self.send_header(key, value)
+                header_keys = {value.lower() for key, value in headers_sent}
+'''),
+    ]},
+    {"name": 'r3-cl-dictcomp-filtered', "expect": 'R19.1', "edits": [
+        (S, r'''                header_keys = set()
+                for key, value in headers_sent:
+                    self.send_header(key, value)
+                    header_keys.add(key.lower())
+''', r'''                for key, value in headers_sent:
+                    self.send_header(key, value)
+                sent = {key.lower(): value for key, value in headers_sent if value}
+'''),
+        (S, '                        "content-length" in header_keys\n', '                        "content-length" in sent\n'),
+    ]},
+    {"name": 'r3-terminator-module-constant-short', "expect": 'R19.2', "edits": [
+        (S, '                    self.wfile.write(b"0\\r\\n\\r\\n")\n', '                    self.wfile.write(_LAST_CHUNK)\n'),
+        (S, 'class DechunkedInput(io.RawIOBase):\n', r'''_LAST_CHUNK = b"0\r\n"
+
+
+class DechunkedInput(io.RawIOBase):
+'''),
+    ]},
+    {"name": 'r3-start-response-tuple-swapped', "expect": 'R19.2', "edits": [
+        (S, r'''            status_set = status
+            headers_set = headers
+            return write
+''', r'''            status_set, headers_set = headers, status
+            return write
+'''),
+    ]},
+    {"name": 'r3-countdown-returns-free', "expect": 'R19.3', "edits": [
+        (S, _R3_OLD_1, r'''    def readinto(self, buf: bytearray) -> int:  # type: ignore
+        size = len(buf)
+        free = size
+        while not self._done and free > 0:
+            if self._len == 0:
+                self._len = self.read_chunk_len()
+
+            if self._len == 0:
+                self._done = True
+
+            if self._len > 0:
+                n = min(free, self._len)
+                data = self._rfile.read(n)
+                if len(data) != n:
+                    raise OSError("Unexpected end of chunked data")
+                start = size - free
+                buf[start : start + n] = data
+                self._len -= n
+                free -= n
+
+            if self._len == 0:
+                terminator = self._rfile.readline()
+                if terminator not in (b"\n", b"\r\n", b"\r"):
+                    raise OSError("Missing chunk terminating newline")
+
+        return free
+
+'''),
+    ]},
+    {"name": 'r3-countdown-store-at-free', "expect": 'R19.3', "edits": [
+        (S, _R3_OLD_1, r'''    def readinto(self, buf: bytearray) -> int:  # type: ignore
+        size = len(buf)
+        free = size
+        while not self._done and free > 0:
+            if self._len == 0:
+                self._len = self.read_chunk_len()
+
+            if self._len == 0:
+                self._done = True
+
+            if self._len > 0:
+                n = min(free, self._len)
+                data = self._rfile.read(n)
+                if len(data) != n:
+                    raise OSError("Unexpected end of chunked data")
+                buf[free : free + n] = data
+                self._len -= n
+                free -= n
+
+            if self._len == 0:
+                terminator = self._rfile.readline()
+                if terminator not in (b"\n", b"\r\n", b"\r"):
+                    raise OSError("Missing chunk terminating newline")
+
+        return size - free
+
+'''),
+    ]},
+    {"name": 'r3-header-in-local-flag-on-one', "expect": 'R19.3', "edits": [
+        (S, _R3_OLD_1, r'''    def readinto(self, buf: bytearray) -> int:  # type: ignore
+        read = 0
+        while not self._done and read < len(buf):
+            if self._len == 0:
+                size = self.read_chunk_len()
+                if size == 1:
+                    self._done = True
+                self._len = size
+
+            if self._len > 0:
+                n = min(len(buf) - read, self._len)
+                data = self._rfile.read(n)
+                if len(data) != n:
+                    raise OSError("Unexpected end of chunked data")
+                buf[read : read + n] = data
+                self._len -= n
+                read += n
+
+            if self._len == 0:
+                terminator = self._rfile.readline()
+                if terminator not in (b"\n", b"\r\n", b"\r"):
+                    raise OSError("Missing chunk terminating newline")
+
+        return read
+
+'''),
+    ]},
+    {"name": 'r3-memoryview-store-at-start', "expect": 'R19.3', "edits": [
+        (S, _R3_OLD_1, r'''    def readinto(self, buf: bytearray) -> int:  # type: ignore
+        view = memoryview(buf)
+        total = len(view)
+        read = 0
+        while not self._done and read < total:
+            if self._len == 0:
+                self._len = self.read_chunk_len()
+
+            if self._len == 0:
+                self._done = True
+
+            if self._len > 0:
+                n = min(total - read, self._len)
+                if len(data := self._rfile.read(n)) != n:
+                    raise OSError("Unexpected end of chunked data")
+                view[:n] = data
+                self._len -= n
+                read += n
+
+            if self._len == 0:
+                terminator = self._rfile.readline()
+                if terminator not in (b"\n", b"\r\n", b"\r"):
+                    raise OSError("Missing chunk terminating newline")
+
+        return read
+
+'''),
+    ]},
+    {"name": 'r3-walrus-unchecked', "expect": 'R19.3', "edits": [
+        (S, _R3_OLD_1, r'''    def readinto(self, buf: bytearray) -> int:  # type: ignore
+        read = 0
+        while not self._done and read < len(buf):
+            if self._len == 0:
+                self._len = self.read_chunk_len()
+
+            if self._len == 0:
+                self._done = True
+
+            if self._len > 0:
+                n = min(len(buf) - read, self._len)
+                if not (data := self._rfile.read(n)):
+                    raise OSError("Unexpected end of chunked data")
+                buf[read : read + n] = data
+                self._len -= n
+                read += n
+
+            if self._len == 0:
+                terminator = self._rfile.readline()
+                if terminator not in (b"\n", b"\r\n", b"\r"):
+                    raise OSError("Missing chunk terminating newline")
+
+        return read
+
+'''),
+    ]},
+    {"name": 'r3-done-flag-expression-negated', "expect": 'R19.3', "edits": [
+        (S, _R3_OLD_1, r'''    def readinto(self, buf: bytearray) -> int:  # type: ignore
+        read = 0
+        while not self._done and read < len(buf):
+            if self._len == 0:
+                self._len = self.read_chunk_len()
+                self._done = self._len != 0
+
+            if self._len > 0:
+                n = min(len(buf) - read, self._len)
+                data = self._rfile.read(n)
+                if len(data) != n:
+                    raise OSError("Unexpected end of chunked data")
+                buf[read : read + n] = data
+                self._len -= n
+                read += n
+
+            if self._len == 0:
+                terminator = self._rfile.readline()
+                if terminator not in (b"\n", b"\r\n", b"\r"):
+                    raise OSError("Missing chunk terminating newline")
+
+        return read
+
+'''),
+    ]},
+    {"name": 'r3-wrap-presence-only', "expect": 'R19.4', "edits": [
+        (S, r'''        if environ.get("HTTP_TRANSFER_ENCODING", "").strip().lower() == "chunked":
+            environ["wsgi.input_terminated"] = True
+            environ["wsgi.input"] = DechunkedInput(environ["wsgi.input"])
+''', r'''        if "HTTP_TRANSFER_ENCODING" in environ:
+            environ["wsgi.input_terminated"] = True
+            environ["wsgi.input"] = DechunkedInput(environ["wsgi.input"])
+'''),
+    ]},
+    {"name": 'r3-wrap-try-keyerror-default-chunked', "expect": 'R19.4', "edits": [
+        (S, r'''        if environ.get("HTTP_TRANSFER_ENCODING", "").strip().lower() == "chunked":
+            environ["wsgi.input_terminated"] = True
+            environ["wsgi.input"] = DechunkedInput(environ["wsgi.input"])
+''', r'''        try:
+            transfer_encoding = environ["HTTP_TRANSFER_ENCODING"]
+        except KeyError:
+            transfer_encoding = "chunked"
+        if transfer_encoding.strip().lower() == "chunked":
+            environ["wsgi.input_terminated"] = True
+            environ["wsgi.input"] = DechunkedInput(environ["wsgi.input"])
+'''),
+    ]},
+    {"name": 'r3-wrap-update-dict-flag-false', "expect": 'R19.4', "edits": [
+        (S, r'''        if environ.get("HTTP_TRANSFER_ENCODING", "").strip().lower() == "chunked":
+            environ["wsgi.input_terminated"] = True
+            environ["wsgi.input"] = DechunkedInput(environ["wsgi.input"])
+''', r'''        if environ.get("HTTP_TRANSFER_ENCODING", "").strip().lower() == "chunked":
+            environ.update({"wsgi.input_terminated": False, "wsgi.input": DechunkedInput(self.rfile)})
+'''),
+    ]},
+    {"name": 'r3-entries-hoisted-method-default', "expect": 'R19.4', "edits": [
+        (S, '        environ: WSGIEnvironment = {\n', r'''        method = self.command or "GET"
+        environ: WSGIEnvironment = {
+'''),
+        (S, '"REQUEST_METHOD": self.command,', '"REQUEST_METHOD": method,'),
+    ]},
+    {"name": 'r3-header-loop-star-keys-from-values', "expect": 'R19.1', "edits": [
+        (S, r'''                for key, value in headers_sent:
+                    self.send_header(key, value)
+                    header_keys.add(key.lower())
+''', r'''                for header in headers_sent:
+                    self.send_header(*header)
+                    header_keys.add(header[1].lower())
+'''),
+    ]},
+    {"name": 'r3-header-loop-index-swapped', "expect": 'R19.2', "edits": [
+        (S, r'''                for key, value in headers_sent:
+                    self.send_header(key, value)
+                    header_keys.add(key.lower())
+''', r'''                for header in headers_sent:
+                    self.send_header(header[1], header[0])
+                    header_keys.add(header[0].lower())
+'''),
+    ]},
+    {"name": 'r3-decision-module-constants-204-only', "expect": 'R19.1', "edits": [
+        (S, _R3_OLD_8, r'''                if (
+                    "content-length" not in header_keys
+                    and environ["REQUEST_METHOD"] != "HEAD"
+                    and not (100 <= code < 200)
+                    and code not in _BODYLESS_STATUS
+                    and self.protocol_version >= "HTTP/1.1"
+                ):
+'''),
+        (S, 'class DechunkedInput(io.RawIOBase):\n', r'''_BODYLESS_STATUS = frozenset({204})
+
+
+class DechunkedInput(io.RawIOBase):
+'''),
+    ]},
+    {"name": 'r3-write-frame-list-no-trailing-crlf', "expect": 'R19.2', "edits": [
+        (S, _R3_OLD_6, r'''            if data:
+                pieces = [data]
+                if chunk_response:
+                    pieces = [hex(len(data))[2:].encode(), b"\r\n", data]
+                self.wfile.write(b"".join(pieces))
+'''),
+    ]},
+    {"name": 'r3-write-guard-clause-size-before', "expect": 'R19.2', "edits": [
+        (S, _R3_OLD_6, r'''            if chunk_response:
+                self.wfile.write(hex(len(data))[2:].encode())
+                self.wfile.write(b"\r\n")
+
+            if not data:
+                self.wfile.flush()
+                return
+
+            self.wfile.write(data)
+
+            if chunk_response:
+                self.wfile.write(b"\r\n")
+'''),
+    ]},
+    {"name": 'r3-status-int-of-subscript-second', "expect": 'R19.2', "edits": [
+        (S, r'''                try:
+                    code_str, msg = status_sent.split(None, 1)
+                except ValueError:
+                    code_str, msg = status_sent, ""
+                code = int(code_str)
+''', r'''                parts = status_sent.split(None, 1)
+                code = int(parts[1])
+                msg = parts[0] if len(parts) > 1 else ""
+'''),
+    ]},
+]
+
+TWINS += [
+    {"name": 'r3-space-local-ifexp-min', "edits": [
+        (S, _R3_OLD_1, r'''    def readinto(self, buf: bytearray) -> int:  # type: ignore
+        size = len(buf)
+        read = 0
+        while not self._done and read < size:
+            if self._len == 0:
+                self._len = self.read_chunk_len()
+
+            if self._len == 0:
+                self._done = True
+
+            if self._len > 0:
+                space = size - read
+                n = self._len if self._len < space else space
+                data = self._rfile.read(n)
+                if len(data) != n:
+                    raise OSError("Unexpected end of chunked data")
+                buf[read : read + n] = data
+                read, self._len = read + n, self._len - n
+
+            if self._len == 0:
+                terminator = self._rfile.readline()
+                if terminator not in (b"\n", b"\r\n", b"\r"):
+                    raise OSError("Missing chunk terminating newline")
+
+        return read
+
+'''),
+    ]},
+    {"name": 'r3-ifexp-min-flipped', "edits": [
+        (S, _R3_OLD_1, r'''    def readinto(self, buf: bytearray) -> int:  # type: ignore
+        read = 0
+        while not self._done and read < len(buf):
+            if self._len == 0:
+                self._len = self.read_chunk_len()
+
+            if self._len == 0:
+                self._done = True
+
+            if self._len > 0:
+                room = len(buf) - read
+                n = room if not (self._len <= room) else self._len
+                data = self._rfile.read(n)
+                if len(data) != n:
+                    raise OSError("Unexpected end of chunked data")
+                buf[read : read + n] = data
+                self._len = self._len - n
+                read = read + n
+
+            if self._len == 0:
+                terminator = self._rfile.readline()
+                if terminator not in (b"\n", b"\r\n", b"\r"):
+                    raise OSError("Missing chunk terminating newline")
+
+        return read
+
+'''),
+    ]},
+    {"name": 'r3-memoryview-alias-walrus', "edits": [
+        (S, _R3_OLD_1, r'''    def readinto(self, buf: bytearray) -> int:  # type: ignore
+        view = memoryview(buf)
+        total = len(view)
+        read = 0
+        while not self._done and read < total:
+            if self._len == 0:
+                self._len = self.read_chunk_len()
+
+            if self._len == 0:
+                self._done = True
+
+            if self._len > 0:
+                n = min(total - read, self._len)
+                if len(data := self._rfile.read(n)) != n:
+                    raise OSError("Unexpected end of chunked data")
+                view[read : read + n] = data
+                self._len -= n
+                read += n
+
+            if self._len == 0:
+                terminator = self._rfile.readline()
+                if terminator not in (b"\n", b"\r\n", b"\r"):
+                    raise OSError("Missing chunk terminating newline")
+
+        return read
+
+'''),
+    ]},
+    {"name": 'r3-while-true-break', "edits": [
+        (S, _R3_OLD_1, r'''    def readinto(self, buf: bytearray) -> int:  # type: ignore
+        size = len(buf)
+        read = 0
+        while True:
+            if self._done or read >= size:
+                break
+            if self._len == 0:
+                self._len = self.read_chunk_len()
+
+            if self._len == 0:
+                self._done = True
+
+            if self._len > 0:
+                n = min(size - read, self._len)
+                data = self._rfile.read(n)
+                got = len(data)
+                if got != n:
+                    raise OSError("Unexpected end of chunked data")
+                buf[read : read + got] = data
+                self._len -= got
+                read += got
+
+            if self._len == 0:
+                terminator = self._rfile.readline()
+                if terminator not in (b"\n", b"\r\n", b"\r"):
+                    raise OSError("Missing chunk terminating newline")
+
+        return read
+
+'''),
+    ]},
+    {"name": 'r3-while-true-return', "edits": [
+        (S, _R3_OLD_1, r'''    def readinto(self, buf: bytearray) -> int:  # type: ignore
+        read = 0
+        while True:
+            if self._done:
+                return read
+            if not read < len(buf):
+                return read
+            if self._len == 0:
+                self._len = self.read_chunk_len()
+
+            if self._len == 0:
+                self._done = True
+
+            if self._len > 0:
+                n = min(len(buf), self._len)
+                if read + n > len(buf):
+                    n = len(buf) - read
+                data = self._rfile.read(n)
+                if len(data) != n:
+                    raise OSError("Unexpected end of chunked data")
+                buf[read : read + n] = data
+                self._len -= n
+                read += n
+
+            if self._len == 0:
+                terminator = self._rfile.readline()
+                if terminator not in (b"\n", b"\r\n", b"\r"):
+                    raise OSError("Missing chunk terminating newline")
+
+
+'''),
+    ]},
+    {"name": 'r3-remaining-local-residual-assign', "edits": [
+        (S, _R3_OLD_1, r'''    def readinto(self, buf: bytearray) -> int:  # type: ignore
+        read = 0
+        while not self._done and read < len(buf):
+            if self._len == 0:
+                self._len = self.read_chunk_len()
+
+            if self._len == 0:
+                self._done = True
+
+            if self._len > 0:
+                n = min(len(buf) - read, self._len)
+                remaining = self._len - n
+                data = self._rfile.read(n)
+                if len(data) < n:
+                    raise OSError("Unexpected end of chunked data")
+                buf[read : read + n] = data
+                self._len = remaining
+                read += n
+
+            if self._len == 0:
+                terminator = self._rfile.readline()
+                if terminator not in (b"\n", b"\r\n", b"\r"):
+                    raise OSError("Missing chunk terminating newline")
+
+        return read
+
+'''),
+    ]},
+    {"name": 'r3-decrement-before-store', "edits": [
+        (S, _R3_OLD_1, r'''    def readinto(self, buf: bytearray) -> int:  # type: ignore
+        read = 0
+        while not self._done and read < len(buf):
+            if self._len == 0:
+                self._len = self.read_chunk_len()
+
+            if self._len == 0:
+                self._done = True
+
+            if self._len > 0:
+                n = min(len(buf) - read, self._len)
+                data = self._rfile.read(n)
+                self._len -= n
+                if len(data) != n:
+                    raise OSError("Unexpected end of chunked data")
+                buf[read : read + n] = data
+                read += n
+
+            if self._len == 0:
+                terminator = self._rfile.readline()
+                if terminator not in (b"\n", b"\r\n", b"\r"):
+                    raise OSError("Missing chunk terminating newline")
+
+        return read
+
+'''),
+    ]},
+    {"name": 'r3-bytes-wrapper', "edits": [
+        (S, _R3_OLD_1, r'''    def readinto(self, buf: bytearray) -> int:  # type: ignore
+        read = 0
+        while not self._done and read < len(buf):
+            if self._len == 0:
+                self._len = self.read_chunk_len()
+
+            if self._len == 0:
+                self._done = True
+
+            if self._len > 0:
+                n = min(len(buf) - read, self._len)
+                data = bytes(self._rfile.read(n))
+                if len(data) != n:
+                    raise OSError("Unexpected end of chunked data")
+                buf[read : read + n] = data
+                self._len -= n
+                read += n
+
+            if self._len == 0:
+                terminator = self._rfile.readline()
+                if terminator not in (b"\n", b"\r\n", b"\r"):
+                    raise OSError("Missing chunk terminating newline")
+
+        return read
+
+'''),
+    ]},
+    {"name": 'r3-header-in-local', "edits": [
+        (S, _R3_OLD_1, r'''    def readinto(self, buf: bytearray) -> int:  # type: ignore
+        read = 0
+        while not self._done and read < len(buf):
+            if self._len == 0:
+                size = self.read_chunk_len()
+                if size == 0:
+                    self._done = True
+                self._len = size
+
+            if self._len > 0:
+                n = min(len(buf) - read, self._len)
+                data = self._rfile.read(n)
+                if len(data) != n:
+                    raise OSError("Unexpected end of chunked data")
+                buf[read : read + n] = data
+                self._len -= n
+                read += n
+
+            if self._len == 0:
+                terminator = self._rfile.readline()
+                if terminator not in (b"\n", b"\r\n", b"\r"):
+                    raise OSError("Missing chunk terminating newline")
+
+        return read
+
+'''),
+    ]},
+    {"name": 'r3-if-elif-structure', "edits": [
+        (S, _R3_OLD_1, r'''    def readinto(self, buf: bytearray) -> int:  # type: ignore
+        read = 0
+        while not self._done and read < len(buf):
+            if self._len == 0:
+                self._len = self.read_chunk_len()
+                if self._len == 0:
+                    self._done = True
+
+            if self._len > 0:
+                n = min(len(buf) - read, self._len)
+                data = self._rfile.read(n)
+                if len(data) != n:
+                    raise OSError("Unexpected end of chunked data")
+                buf[read : read + n] = data
+                self._len -= n
+                read += n
+                if self._len:
+                    continue
+
+            if self._rfile.readline() not in (b"\n", b"\r\n", b"\r"):
+                raise OSError("Missing chunk terminating newline")
+
+        return read
+
+'''),
+    ]},
+    {"name": 'r3-free-space-countdown', "edits": [
+        (S, _R3_OLD_1, r'''    def readinto(self, buf: bytearray) -> int:  # type: ignore
+        size = len(buf)
+        free = size
+        while not self._done and free > 0:
+            if self._len == 0:
+                self._len = self.read_chunk_len()
+
+            if self._len == 0:
+                self._done = True
+
+            if self._len > 0:
+                n = min(free, self._len)
+                data = self._rfile.read(n)
+                if len(data) != n:
+                    raise OSError("Unexpected end of chunked data")
+                start = size - free
+                buf[start : start + n] = data
+                self._len -= n
+                free -= n
+
+            if self._len == 0:
+                terminator = self._rfile.readline()
+                if terminator not in (b"\n", b"\r\n", b"\r"):
+                    raise OSError("Missing chunk terminating newline")
+
+        return size - free
+
+'''),
+    ]},
+    {"name": 'r3-term-neq-chain', "edits": [
+        (S, r'''                terminator = self._rfile.readline()
+                if terminator not in (b"\n", b"\r\n", b"\r"):
+                    raise OSError("Missing chunk terminating newline")
+''', r'''                terminator = self._rfile.readline()
+                if terminator != b"\r\n" and terminator != b"\n" and terminator != b"\r":
+                    raise OSError("Missing chunk terminating newline")
+'''),
+    ]},
+    {"name": 'r3-term-eq-chain-pass', "edits": [
+        (S, r'''                terminator = self._rfile.readline()
+                if terminator not in (b"\n", b"\r\n", b"\r"):
+                    raise OSError("Missing chunk terminating newline")
+''', r'''                terminator = self._rfile.readline()
+                if terminator == b"\r\n" or terminator == b"\n" or terminator == b"\r":
+                    continue
+                raise OSError("Missing chunk terminating newline")
+'''),
+    ]},
+    {"name": 'r3-term-module-constant', "edits": [
+        (S, r'''                terminator = self._rfile.readline()
+                if terminator not in (b"\n", b"\r\n", b"\r"):
+                    raise OSError("Missing chunk terminating newline")
+''', r'''                terminator = self._rfile.readline()
+                if terminator not in _CHUNK_TERMINATORS:
+                    raise OSError("Missing chunk terminating newline")
+'''),
+        (S, 'class DechunkedInput(io.RawIOBase):\n', r'''_CHUNK_TERMINATORS = frozenset((b"\n", b"\r\n", b"\r"))
+
+
+class DechunkedInput(io.RawIOBase):
+'''),
+    ]},
+    {"name": 'r3-term-walrus', "edits": [
+        (S, r'''                terminator = self._rfile.readline()
+                if terminator not in (b"\n", b"\r\n", b"\r"):
+                    raise OSError("Missing chunk terminating newline")
+''', r'''                if (terminator := self._rfile.readline()) not in {b"\n", b"\r\n", b"\r"}:
+                    raise OSError("Missing chunk terminating newline")
+'''),
+    ]},
+    {"name": 'r3-term-inline-call', "edits": [
+        (S, r'''                terminator = self._rfile.readline()
+                if terminator not in (b"\n", b"\r\n", b"\r"):
+                    raise OSError("Missing chunk terminating newline")
+''', r'''                if self._rfile.readline() not in [b"\n", b"\r\n", b"\r"]:
+                    raise OSError("Missing chunk terminating newline")
+'''),
+    ]},
+    {"name": 'r3-neg-check-in-caller', "edits": [
+        (S, _R3_OLD_2, r'''    def read_chunk_len(self) -> int:
+        try:
+            line = self._rfile.readline().decode("latin1")
+            return int(line.strip(), 16)
+        except ValueError as e:
+            raise OSError("Invalid chunk header") from e
+'''),
+        (S, r'''            if self._len == 0:
+                # This is the first chunk or we fully consumed the previous
+                # one. Read the next length of the next chunk
+                self._len = self.read_chunk_len()
+''', r'''            if self._len == 0:
+                self._len = self.read_chunk_len()
+                if self._len < 0:
+                    raise OSError("Negative chunk length not allowed")
+'''),
+    ]},
+    {"name": 'r3-neg-check-in-caller-local', "edits": [
+        (S, _R3_OLD_2, r'''    def read_chunk_len(self) -> int:
+        try:
+            line = self._rfile.readline().decode("latin1")
+            _len = int(line.strip(), 16)
+        except ValueError as e:
+            raise OSError("Invalid chunk header") from e
+        return _len
+'''),
+        (S, r'''            if self._len == 0:
+                # This is the first chunk or we fully consumed the previous
+                # one. Read the next length of the next chunk
+                self._len = self.read_chunk_len()
+''', r'''            if self._len == 0:
+                size = self.read_chunk_len()
+                if size < 0:
+                    raise OSError("Negative chunk length not allowed")
+                self._len = size
+'''),
+    ]},
+    {"name": 'r3-conversion-in-caller', "edits": [
+        (S, _R3_OLD_2, r'''    def read_chunk_len(self) -> int:
+        line = self._rfile.readline().decode("latin1")
+        _len = int(line.strip(), 16)
+        if _len < 0:
+            raise OSError("Negative chunk length not allowed")
+        return _len
+'''),
+        (S, r'''            if self._len == 0:
+                # This is the first chunk or we fully consumed the previous
+                # one. Read the next length of the next chunk
+                self._len = self.read_chunk_len()
+''', r'''            if self._len == 0:
+                try:
+                    self._len = self.read_chunk_len()
+                except ValueError as e:
+                    raise OSError("Invalid chunk header") from e
+'''),
+    ]},
+    {"name": 'r3-sep-dict-update', "edits": [
+        (S, _R3_OLD_3, r'''        received: dict[str, str] = {}
+        for key, value in self.headers.items():
+            if "_" in key:
+                continue
+
+            key = key.upper().replace("-", "_")
+            value = value.replace("\r\n", "")
+            if key not in ("CONTENT_TYPE", "CONTENT_LENGTH"):
+                key = f"HTTP_{key}"
+                if key in received:
+                    value = f"{received[key]},{value}"
+            received[key] = value
+
+        environ.update(received)
+
+        if environ.get("HTTP_TRANSFER_ENCODING", "").strip().lower() == "chunked":
+            environ["wsgi.input_terminated"] = True
+            environ["wsgi.input"] = DechunkedInput(environ["wsgi.input"])
+
+'''),
+    ]},
+    {"name": 'r3-sep-dict-ior', "edits": [
+        (S, _R3_OLD_3, r'''        received = dict()
+        for key, value in self.headers.items():
+            if "_" in key:
+                continue
+
+            key = key.upper().replace("-", "_")
+            value = value.replace("\r\n", "")
+            if key not in ("CONTENT_TYPE", "CONTENT_LENGTH"):
+                key = f"HTTP_{key}"
+                if key in received:
+                    value = f"{received[key]},{value}"
+            received[key] = value
+
+        environ |= received
+
+        if environ.get("HTTP_TRANSFER_ENCODING", "").strip().lower() == "chunked":
+            environ["wsgi.input_terminated"] = True
+            environ["wsgi.input"] = DechunkedInput(environ["wsgi.input"])
+
+'''),
+    ]},
+    {"name": 'r3-sep-dict-rebuild', "edits": [
+        (S, _R3_OLD_3, r'''        received = {}
+        for key, value in self.headers.items():
+            if "_" in key:
+                continue
+
+            key = key.upper().replace("-", "_")
+            value = value.replace("\r\n", "")
+            if key not in ("CONTENT_TYPE", "CONTENT_LENGTH"):
+                key = f"HTTP_{key}"
+                if key in received:
+                    value = f"{received[key]},{value}"
+            received[key] = value
+
+        environ = {**environ, **received}
+
+        if environ.get("HTTP_TRANSFER_ENCODING", "").strip().lower() == "chunked":
+            environ["wsgi.input_terminated"] = True
+            environ["wsgi.input"] = DechunkedInput(environ["wsgi.input"])
+
+'''),
+    ]},
+    {"name": 'r3-sep-dict-or', "edits": [
+        (S, _R3_OLD_3, r'''        received = {}
+        for key, value in self.headers.items():
+            if "_" in key:
+                continue
+
+            key = key.upper().replace("-", "_")
+            value = value.replace("\r\n", "")
+            if key not in ("CONTENT_TYPE", "CONTENT_LENGTH"):
+                key = f"HTTP_{key}"
+                if key in received:
+                    value = f"{received[key]},{value}"
+            received[key] = value
+
+        environ = environ | received
+
+        if environ.get("HTTP_TRANSFER_ENCODING", "").strip().lower() == "chunked":
+            environ["wsgi.input_terminated"] = True
+            environ["wsgi.input"] = DechunkedInput(environ["wsgi.input"])
+
+'''),
+    ]},
+    {"name": 'r3-sep-dict-env-wins-no-clash', "edits": [
+        (S, _R3_OLD_3, r'''        received = {}
+        for key, value in self.headers.items():
+            if "_" in key:
+                continue
+
+            key = key.upper().replace("-", "_")
+            value = value.replace("\r\n", "")
+            if key not in ("CONTENT_TYPE", "CONTENT_LENGTH"):
+                key = f"HTTP_{key}"
+                if key in received:
+                    value = f"{received[key]},{value}"
+            received[key] = value
+
+        environ = {**received, **environ}
+
+        if environ.get("HTTP_TRANSFER_ENCODING", "").strip().lower() == "chunked":
+            environ["wsgi.input_terminated"] = True
+            environ["wsgi.input"] = DechunkedInput(environ["wsgi.input"])
+
+'''),
+    ]},
+    {"name": 'r3-sep-dict-te-from-received', "edits": [
+        (S, _R3_OLD_3, r'''        received = {}
+        for key, value in self.headers.items():
+            if "_" in key:
+                continue
+
+            key = key.upper().replace("-", "_")
+            value = value.replace("\r\n", "")
+            if key not in ("CONTENT_TYPE", "CONTENT_LENGTH"):
+                key = f"HTTP_{key}"
+                if key in received:
+                    value = f"{received[key]},{value}"
+            received[key] = value
+
+        environ.update(received)
+        chunked = received.get("HTTP_TRANSFER_ENCODING", "").strip().lower() == "chunked"
+
+        if chunked:
+            stream = self.rfile
+            environ["wsgi.input_terminated"] = True
+            environ["wsgi.input"] = DechunkedInput(stream)
+
+'''),
+    ]},
+    {"name": 'r3-sep-dict-update-kwargs', "edits": [
+        (S, _R3_OLD_3, r'''        received = {}
+        for key, value in self.headers.items():
+            if "_" in key:
+                continue
+
+            key = key.upper().replace("-", "_")
+            value = value.replace("\r\n", "")
+            if key not in ("CONTENT_TYPE", "CONTENT_LENGTH"):
+                key = f"HTTP_{key}"
+                if key in received:
+                    value = f"{received[key]},{value}"
+            received[key] = value
+
+        environ.update(**received)
+
+        if environ.get("HTTP_TRANSFER_ENCODING", "").strip().lower() == "chunked":
+            environ["wsgi.input_terminated"] = True
+            environ["wsgi.input"] = DechunkedInput(environ["wsgi.input"])
+
+'''),
+    ]},
+    {"name": 'r3-sep-dict-get-join', "edits": [
+        (S, _R3_OLD_3, r'''        received = {}
+        for name, value in self.headers.items():
+            if "_" in name:
+                continue
+            key = name.upper().replace("-", "_")
+            value = value.replace("\r\n", "")
+            if key in ("CONTENT_TYPE", "CONTENT_LENGTH"):
+                received[key] = value
+                continue
+            key = "HTTP_" + key
+            earlier = received.get(key)
+            received[key] = value if earlier is None else f"{earlier},{value}"
+
+        environ.update(received)
+
+        if environ.get("HTTP_TRANSFER_ENCODING", "").strip().lower() == "chunked":
+            environ["wsgi.input_terminated"] = True
+            environ["wsgi.input"] = DechunkedInput(environ["wsgi.input"])
+
+'''),
+    ]},
+    {"name": 'r3-literal-after-loop-splice', "edits": [
+        (S, _R3_OLD_3, r'''        if environ.get("HTTP_TRANSFER_ENCODING", "").strip().lower() == "chunked":
+            environ["wsgi.input_terminated"] = True
+            environ["wsgi.input"] = DechunkedInput(environ["wsgi.input"])
+
+'''),
+        (S, '        environ: WSGIEnvironment = {\n', r'''        received = {}
+        for key, value in self.headers.items():
+            if "_" in key:
+                continue
+
+            key = key.upper().replace("-", "_")
+            value = value.replace("\r\n", "")
+            if key not in ("CONTENT_TYPE", "CONTENT_LENGTH"):
+                key = f"HTTP_{key}"
+                if key in received:
+                    value = f"{received[key]},{value}"
+            received[key] = value
+
+        environ: WSGIEnvironment = {
+'''),
+        (S, r'''            "SERVER_PROTOCOL": self.request_version,
+        }
+''', r'''            "SERVER_PROTOCOL": self.request_version,
+            **received,
+        }
+'''),
+    ]},
+    {"name": 'r3-path-hoisted-booleans', "edits": [
+        (S, _R3_OLD_4, r'''        has_scheme = bool(request_url.scheme)
+        has_netloc = bool(request_url.netloc)
+        if has_netloc and not has_scheme:
+            path_info = f"/{request_url.netloc}{request_url.path}"
+        else:
+            path_info = request_url.path
+
+        path_info = unquote(path_info)
+'''),
+    ]},
+    {"name": 'r3-path-prefix-local', "edits": [
+        (S, _R3_OLD_4, r'''        prefix = ""
+        if request_url.netloc and not request_url.scheme:
+            prefix = "/" + request_url.netloc
+        path_info = unquote(prefix + request_url.path)
+'''),
+    ]},
+    {"name": 'r3-path-prefix-ifexp', "edits": [
+        (S, _R3_OLD_4, r'''        prefix = f"/{request_url.netloc}" if (request_url.netloc and not request_url.scheme) else ""
+        path_info = unquote(f"{prefix}{request_url.path}")
+'''),
+    ]},
+    {"name": 'r3-path-join-list', "edits": [
+        (S, _R3_OLD_4, r'''        segments = [request_url.path]
+        if not request_url.scheme and request_url.netloc:
+            segments = ["/", request_url.netloc, request_url.path]
+        path_info = unquote("".join(segments))
+'''),
+    ]},
+    {"name": 'r3-path-unquote-per-branch', "edits": [
+        (S, _R3_OLD_4, r'''        if request_url.scheme or not request_url.netloc:
+            path_info = unquote(request_url.path)
+        else:
+            path_info = unquote("/" + request_url.netloc + request_url.path)
+'''),
+    ]},
+    {"name": 'r3-path-compare-empty', "edits": [
+        (S, _R3_OLD_4, r'''        if request_url.scheme == "" and request_url.netloc != "":
+            path_info = f"/{request_url.netloc}{request_url.path}"
+        else:
+            path_info = request_url.path
+
+        path_info = unquote(path_info)
+'''),
+    ]},
+    {"name": 'r3-entries-hoisted', "edits": [
+        (S, '        environ: WSGIEnvironment = {\n', r'''        method = self.command
+        stream = self.rfile
+        query_string = _wsgi_encoding_dance(request_url.query)
+        decoded_path = _wsgi_encoding_dance(path_info)
+        environ: WSGIEnvironment = {
+'''),
+        (S, '"REQUEST_METHOD": self.command,', '"REQUEST_METHOD": method,'),
+        (S, '"wsgi.input": self.rfile,', '"wsgi.input": stream,'),
+        (S, '"QUERY_STRING": _wsgi_encoding_dance(request_url.query),', '"QUERY_STRING": query_string,'),
+        (S, '"PATH_INFO": _wsgi_encoding_dance(path_info),', '"PATH_INFO": decoded_path,'),
+    ]},
+    {"name": 'r3-wrap-two-ifs', "edits": [
+        (S, r'''        if environ.get("HTTP_TRANSFER_ENCODING", "").strip().lower() == "chunked":
+            environ["wsgi.input_terminated"] = True
+            environ["wsgi.input"] = DechunkedInput(environ["wsgi.input"])
+''', r'''        chunked = environ.get("HTTP_TRANSFER_ENCODING", "").strip().lower() == "chunked"
+        if chunked:
+            environ["wsgi.input_terminated"] = True
+        if chunked:
+            environ["wsgi.input"] = DechunkedInput(environ["wsgi.input"])
+'''),
+    ]},
+    {"name": 'r3-wrap-update-dict', "edits": [
+        (S, r'''        if environ.get("HTTP_TRANSFER_ENCODING", "").strip().lower() == "chunked":
+            environ["wsgi.input_terminated"] = True
+            environ["wsgi.input"] = DechunkedInput(environ["wsgi.input"])
+''', r'''        if environ.get("HTTP_TRANSFER_ENCODING", "").strip().lower() == "chunked":
+            environ.update({"wsgi.input_terminated": True, "wsgi.input": DechunkedInput(self.rfile)})
+'''),
+    ]},
+    {"name": 'r3-wrap-tuple-assign', "edits": [
+        (S, r'''        if environ.get("HTTP_TRANSFER_ENCODING", "").strip().lower() == "chunked":
+            environ["wsgi.input_terminated"] = True
+            environ["wsgi.input"] = DechunkedInput(environ["wsgi.input"])
+''', r'''        if environ.get("HTTP_TRANSFER_ENCODING", "").strip().lower() == "chunked":
+            environ["wsgi.input_terminated"], environ["wsgi.input"] = True, DechunkedInput(self.rfile)
+'''),
+    ]},
+    {"name": 'r3-wrap-local-stream', "edits": [
+        (S, r'''        if environ.get("HTTP_TRANSFER_ENCODING", "").strip().lower() == "chunked":
+            environ["wsgi.input_terminated"] = True
+            environ["wsgi.input"] = DechunkedInput(environ["wsgi.input"])
+''', r'''        if environ.get("HTTP_TRANSFER_ENCODING", "").strip().lower() == "chunked":
+            dechunked = DechunkedInput(environ["wsgi.input"])
+            environ["wsgi.input"] = dechunked
+            environ["wsgi.input_terminated"] = True
+'''),
+    ]},
+    {"name": 'r3-wrap-presence-test', "edits": [
+        (S, r'''        if environ.get("HTTP_TRANSFER_ENCODING", "").strip().lower() == "chunked":
+            environ["wsgi.input_terminated"] = True
+            environ["wsgi.input"] = DechunkedInput(environ["wsgi.input"])
+''', r'''        if "HTTP_TRANSFER_ENCODING" in environ and environ["HTTP_TRANSFER_ENCODING"].strip().lower() == "chunked":
+            environ["wsgi.input_terminated"] = True
+            environ["wsgi.input"] = DechunkedInput(environ["wsgi.input"])
+'''),
+    ]},
+    {"name": 'r3-wrap-try-keyerror', "edits": [
+        (S, r'''        if environ.get("HTTP_TRANSFER_ENCODING", "").strip().lower() == "chunked":
+            environ["wsgi.input_terminated"] = True
+            environ["wsgi.input"] = DechunkedInput(environ["wsgi.input"])
+''', r'''        try:
+            transfer_encoding = environ["HTTP_TRANSFER_ENCODING"]
+        except KeyError:
+            transfer_encoding = ""
+        if transfer_encoding.strip().lower() == "chunked":
+            environ["wsgi.input_terminated"] = True
+            environ["wsgi.input"] = DechunkedInput(environ["wsgi.input"])
+'''),
+    ]},
+    {"name": 'r3-loop-generator-filter', "edits": [
+        (S, _R3_OLD_5, r'''        for key, value in ((k, v) for k, v in self.headers.items() if "_" not in k):
+            key = key.upper().replace("-", "_")
+            value = value.replace("\r\n", "")
+            if key not in ("CONTENT_TYPE", "CONTENT_LENGTH"):
+                key = f"HTTP_{key}"
+                if key in environ:
+                    value = f"{environ[key]},{value}"
+            environ[key] = value
+
+'''),
+    ]},
+    {"name": 'r3-loop-listcomp-canonical', "edits": [
+        (S, _R3_OLD_5, r'''        received = [(k.upper().replace("-", "_"), v.replace("\r\n", "")) for k, v in self.headers.items() if "_" not in k]
+        for key, value in received:
+            if key not in ("CONTENT_TYPE", "CONTENT_LENGTH"):
+                key = f"HTTP_{key}"
+                if key in environ:
+                    value = f"{environ[key]},{value}"
+            environ[key] = value
+
+'''),
+    ]},
+    {"name": 'r3-loop-generator-canonical-inline', "edits": [
+        (S, _R3_OLD_5, r'''        for key, value in ((k.upper().replace("-", "_"), v) for k, v in self.headers.items() if "_" not in k):
+            value = value.replace("\r\n", "")
+            if key not in ("CONTENT_TYPE", "CONTENT_LENGTH"):
+                key = f"HTTP_{key}"
+                if key in environ:
+                    value = f"{environ[key]},{value}"
+            environ[key] = value
+
+'''),
+    ]},
+    {"name": 'r3-loop-items-local-list', "edits": [
+        (S, _R3_OLD_5, r'''        header_items = list(self.headers.items())
+        for key, value in header_items:
+            if "_" in key:
+                continue
+
+            key = key.upper().replace("-", "_")
+            value = value.replace("\r\n", "")
+            if key not in ("CONTENT_TYPE", "CONTENT_LENGTH"):
+                key = f"HTTP_{key}"
+                if key in environ:
+                    value = f"{environ[key]},{value}"
+            environ[key] = value
+
+'''),
+    ]},
+    {"name": 'r3-loop-key-helper-function', "edits": [
+        (S, _R3_OLD_5, r'''        for key, value in self.headers.items():
+            if "_" in key:
+                continue
+
+            key = _environ_key(key)
+            value = value.replace("\r\n", "")
+            if key.startswith("HTTP_") and key in environ:
+                value = f"{environ[key]},{value}"
+            environ[key] = value
+
+'''),
+        (S, 'class WSGIRequestHandler(BaseHTTPRequestHandler):\n', r'''def _environ_key(name: str) -> str:
+    key = name.upper().replace("-", "_")
+    if key in ("CONTENT_TYPE", "CONTENT_LENGTH"):
+        return key
+    return f"HTTP_{key}"
+
+
+class WSGIRequestHandler(BaseHTTPRequestHandler):
+'''),
+    ]},
+    {"name": 'r3-loop-key-helper-method', "edits": [
+        (S, _R3_OLD_5, r'''        for key, value in self.headers.items():
+            if self._skip_header(key):
+                continue
+
+            key = key.upper().replace("-", "_")
+            value = value.replace("\r\n", "")
+            if key not in ("CONTENT_TYPE", "CONTENT_LENGTH"):
+                key = f"HTTP_{key}"
+                if key in environ:
+                    value = f"{environ[key]},{value}"
+            environ[key] = value
+
+'''),
+        (S, '    def make_environ(self) -> WSGIEnvironment:\n', r'''    def _skip_header(self, name: str) -> bool:
+        return "_" in name
+
+    def make_environ(self) -> WSGIEnvironment:
+'''),
+    ]},
+    {"name": 'r3-loop-split-join-unfold', "edits": [
+        (S, _R3_OLD_5, r'''        for key, value in self.headers.items():
+            if "_" in key:
+                continue
+
+            key = key.upper().replace("-", "_")
+            value = "".join(value.split("\r\n"))
+            if key not in ("CONTENT_TYPE", "CONTENT_LENGTH"):
+                key = f"HTTP_{key}"
+                if key in environ:
+                    value = f"{environ[key]},{value}"
+            environ[key] = value
+
+'''),
+    ]},
+    {"name": 'r3-loop-prefix-table', "edits": [
+        (S, _R3_OLD_5, r'''        unprefixed = {"CONTENT_TYPE", "CONTENT_LENGTH"}
+        for key, value in self.headers.items():
+            if "_" in key:
+                continue
+
+            key = key.upper().replace("-", "_")
+            value = value.replace("\r\n", "")
+            if key not in unprefixed:
+                key = f"HTTP_{key}"
+                if key in environ:
+                    value = f"{environ[key]},{value}"
+            environ[key] = value
+
+'''),
+    ]},
+    {"name": 'r3-status-int-of-subscript', "edits": [
+        (S, r'''                try:
+                    code_str, msg = status_sent.split(None, 1)
+                except ValueError:
+                    code_str, msg = status_sent, ""
+                code = int(code_str)
+''', r'''                parts = status_sent.split(None, 1)
+                code = int(parts[0])
+                msg = parts[1] if len(parts) > 1 else ""
+'''),
+    ]},
+    {"name": 'r3-header-loop-star', "edits": [
+        (S, r'''                for key, value in headers_sent:
+                    self.send_header(key, value)
+                    header_keys.add(key.lower())
+''', r'''                for header in headers_sent:
+                    self.send_header(*header)
+                    header_keys.add(header[0].lower())
+'''),
+    ]},
+    {"name": 'r3-header-loop-index', "edits": [
+        (S, r'''                for key, value in headers_sent:
+                    self.send_header(key, value)
+                    header_keys.add(key.lower())
+''', r'''                for header in headers_sent:
+                    self.send_header(header[0], header[1])
+                    header_keys.add(header[0].lower())
+'''),
+    ]},
+    {"name": 'r3-write-guard-clause', "edits": [
+        (S, _R3_OLD_6, r'''            if not data:
+                self.wfile.flush()
+                return
+
+            if chunk_response:
+                self.wfile.write(hex(len(data))[2:].encode())
+                self.wfile.write(b"\r\n")
+
+            self.wfile.write(data)
+
+            if chunk_response:
+                self.wfile.write(b"\r\n")
+'''),
+    ]},
+    {"name": 'r3-write-frame-list', "edits": [
+        (S, _R3_OLD_6, r'''            if data:
+                pieces = [data]
+                if chunk_response:
+                    pieces = [hex(len(data))[2:].encode(), b"\r\n", data, b"\r\n"]
+                self.wfile.write(b"".join(pieces))
+'''),
+    ]},
+    {"name": 'r3-terminator-guard-merged', "edits": [
+        (S, _R3_OLD_7, r'''                for data in application_iter:
+                    write(data)
+                if not headers_sent:
+                    write(b"")
+                if not chunk_response:
+                    return
+                self.wfile.write(b"0\r\n\r\n")
+'''),
+    ]},
+    {"name": 'r3-decision-module-constants', "edits": [
+        (S, _R3_OLD_8, r'''                if (
+                    "content-length" not in header_keys
+                    and environ["REQUEST_METHOD"] != "HEAD"
+                    and not (100 <= code < 200)
+                    and code not in _BODYLESS_STATUS
+                    and self.protocol_version >= "HTTP/1.1"
+                ):
+'''),
+        (S, 'class DechunkedInput(io.RawIOBase):\n', r'''_BODYLESS_STATUS = frozenset({204, 304})
+
+
+class DechunkedInput(io.RawIOBase):
+'''),
+    ]},
+    {"name": 'r3-except-merged-isinstance', "edits": [
+        (S, r'''        except connection_dropped_errors as e:
+            self.connection_dropped(e, environ)
+        except Exception as e:
+            if self.server.passthrough_errors:
+                raise
+''', r'''        except Exception as e:
+            if isinstance(e, connection_dropped_errors):
+                self.connection_dropped(e, environ)
+                return
+
+            if self.server.passthrough_errors:
+                raise
+'''),
+    ]},
+    {"name": 'r3-cl-dictcomp', "edits": [
+        (S, r'''                header_keys = set()
+                for key, value in headers_sent:
+                    self.send_header(key, value)
+                    header_keys.add(key.lower())
+''', r'''                for key, value in headers_sent:
+                    self.send_header(key, value)
+                sent = {key.lower(): value for key, value in headers_sent}
+'''),
+        (S, '                        "content-length" in header_keys\n', '                        "content-length" in sent\n'),
+    ]},
+    {"name": 'r3-cl-inline-setcomp', "edits": [
+        (S, r'''                header_keys = set()
+                for key, value in headers_sent:
+                    self.send_header(key, value)
+                    header_keys.add(key.lower())
+''', r'''                for key, value in headers_sent:
+                    self.send_header(key, value)
+'''),
+        (S, '                        "content-length" in header_keys\n', '                        "content-length" in {name.lower() for name, _ in headers_sent}\n'),
+    ]},
+    {"name": 'r3-cl-flag-loop', "edits": [
+        (S, r'''                header_keys = set()
+                for key, value in headers_sent:
+                    self.send_header(key, value)
+                    header_keys.add(key.lower())
+''', r'''                has_length = False
+                for key, value in headers_sent:
+                    self.send_header(key, value)
+                    if key.lower() == "content-length":
+                        has_length = True
+'''),
+        (S, '                        "content-length" in header_keys\n', '                        has_length\n'),
+    ]},
+    {"name": 'r3-cl-dict-store', "edits": [
+        (S, r'''                header_keys = set()
+                for key, value in headers_sent:
+                    self.send_header(key, value)
+                    header_keys.add(key.lower())
+''', r'''                sent = {}
+                for key, value in headers_sent:
+                    self.send_header(key, value)
+                    sent[key.lower()] = value
+'''),
+        (S, '                        "content-length" in header_keys\n', '                        "content-length" in sent\n'),
+    ]},
+    {"name": 'r3-start-response-tuple', "edits": [
+        (S, r'''            status_set = status
+            headers_set = headers
+            return write
+''', r'''            status_set, headers_set = status, headers
+            return write
+'''),
+    ]},
+    {"name": 'r3-terminator-module-constant', "edits": [
+        (S, '                    self.wfile.write(b"0\\r\\n\\r\\n")\n', '                    self.wfile.write(_LAST_CHUNK)\n'),
+        (S, 'class DechunkedInput(io.RawIOBase):\n', r'''_LAST_CHUNK = b"0\r\n\r\n"
+
+
+class DechunkedInput(io.RawIOBase):
+'''),
+    ]},
+    {"name": 'r3-done-flag-expression', "edits": [
+        (S, _R3_OLD_1, r'''    def readinto(self, buf: bytearray) -> int:  # type: ignore
+        read = 0
+        while not self._done and read < len(buf):
+            if self._len == 0:
+                self._len = self.read_chunk_len()
+                self._done = self._len == 0
+
+            if self._len > 0:
+                n = min(len(buf) - read, self._len)
+                data = self._rfile.read(n)
+                if len(data) != n:
+                    raise OSError("Unexpected end of chunked data")
+                buf[read : read + n] = data
+                self._len -= n
+                read += n
+
+            if self._len == 0:
+                terminator = self._rfile.readline()
+                if terminator not in (b"\n", b"\r\n", b"\r"):
+                    raise OSError("Missing chunk terminating newline")
+
+        return read
+
+'''),
+    ]},
+    {"name": 'r3-residual-copy-tests', "edits": [
+        (S, _R3_OLD_1, r'''    def readinto(self, buf: bytearray) -> int:  # type: ignore
+        read = 0
+        while not self._done and read < len(buf):
+            left = self._len
+            if left == 0:
+                self._len = self.read_chunk_len()
+
+            if self._len == 0:
+                self._done = True
+
+            left = self._len
+            if left > 0:
+                n = min(len(buf) - read, left)
+                data = self._rfile.read(n)
+                if len(data) != n:
+                    raise OSError("Unexpected end of chunked data")
+                buf[read : read + n] = data
+                self._len = left - n
+                read += n
+
+            if self._len == 0:
+                terminator = self._rfile.readline()
+                if terminator not in (b"\n", b"\r\n", b"\r"):
+                    raise OSError("Missing chunk terminating newline")
+
+        return read
+
+'''),
+    ]},
+    {"name": 'r3-write-frame-list-append', "edits": [
+        (S, _R3_OLD_6, r'''            if data:
+                pieces = []
+                if chunk_response:
+                    pieces.append(b"%x\r\n" % len(data))
+                pieces.append(data)
+                if chunk_response:
+                    pieces.append(b"\r\n")
+                self.wfile.writelines(pieces)
+'''),
+    ]},
+]
+
+# logic moved into a method of the handler (inlined one level)
+
+_R3H_OLD_1 = r'''        for key, value in self.headers.items():
+            if "_" in key:
+                continue
+
+            key = key.upper().replace("-", "_")
+            value = value.replace("\r\n", "")
+            if key not in ("CONTENT_TYPE", "CONTENT_LENGTH"):
+                key = f"HTTP_{key}"
+                if key in environ:
+                    value = f"{environ[key]},{value}"
+            environ[key] = value
+
+'''
+_R3H_OLD_2 = r'''            if data:
+                if chunk_response:
+                    self.wfile.write(hex(len(data))[2:].encode())
+                    self.wfile.write(b"\r\n")
+
+                self.wfile.write(data)
+
+                if chunk_response:
+                    self.wfile.write(b"\r\n")
+'''
+
+MUTANTS += [
+    {"name": 'r3-hdr-loop-in-method-no-skip', "expect": 'R19.4', "edits": [
+        (S, _R3H_OLD_1, r'''        self._copy_headers(environ)
+
+'''),
+        (S, '    def make_environ(self) -> WSGIEnvironment:\n', r'''    def _copy_headers(self, environ: WSGIEnvironment) -> None:
+        for key, value in self.headers.items():
+            key = key.upper().replace("-", "_")
+            value = value.replace("\r\n", "")
+            if key not in ("CONTENT_TYPE", "CONTENT_LENGTH"):
+                key = f"HTTP_{key}"
+                if key in environ:
+                    value = f"{environ[key]},{value}"
+            environ[key] = value
+
+    def make_environ(self) -> WSGIEnvironment:
+'''),
+    ]},
+    {"name": 'r3-wrap-in-method-flag-missing', "expect": 'R19.4', "edits": [
+        (S, r'''        if environ.get("HTTP_TRANSFER_ENCODING", "").strip().lower() == "chunked":
+            environ["wsgi.input_terminated"] = True
+            environ["wsgi.input"] = DechunkedInput(environ["wsgi.input"])
+''', '        self._dechunk_input(environ)\n'),
+        (S, '    def make_environ(self) -> WSGIEnvironment:\n', r'''    def _dechunk_input(self, environ: WSGIEnvironment) -> None:
+        if environ.get("HTTP_TRANSFER_ENCODING", "").strip().lower() == "chunked":
+            environ["wsgi.input"] = DechunkedInput(environ["wsgi.input"])
+
+    def make_environ(self) -> WSGIEnvironment:
+'''),
+    ]},
+    {"name": 'r3-chunk-write-in-method-decimal', "expect": 'R19.2', "edits": [
+        (S, _R3H_OLD_2, r'''            if data:
+                if chunk_response:
+                    self._write_chunk(data)
+                else:
+                    self.wfile.write(data)
+'''),
+        (S, '    def make_environ(self) -> WSGIEnvironment:\n', r'''    def _write_chunk(self, data: bytes) -> None:
+        self.wfile.write(str(len(data)).encode())
+        self.wfile.write(b"\r\n")
+        self.wfile.write(data)
+        self.wfile.write(b"\r\n")
+
+    def make_environ(self) -> WSGIEnvironment:
+'''),
+    ]},
+]
+
+TWINS += [
+    {"name": 'r3-hdr-loop-in-method', "edits": [
+        (S, _R3H_OLD_1, r'''        self._copy_headers(environ)
+
+'''),
+        (S, '    def make_environ(self) -> WSGIEnvironment:\n', r'''    def _copy_headers(self, environ: WSGIEnvironment) -> None:
+        for key, value in self.headers.items():
+            if "_" in key:
+                continue
+
+            key = key.upper().replace("-", "_")
+            value = value.replace("\r\n", "")
+            if key not in ("CONTENT_TYPE", "CONTENT_LENGTH"):
+                key = f"HTTP_{key}"
+                if key in environ:
+                    value = f"{environ[key]},{value}"
+            environ[key] = value
+
+    def make_environ(self) -> WSGIEnvironment:
+'''),
+    ]},
+    {"name": 'r3-wrap-in-method', "edits": [
+        (S, r'''        if environ.get("HTTP_TRANSFER_ENCODING", "").strip().lower() == "chunked":
+            environ["wsgi.input_terminated"] = True
+            environ["wsgi.input"] = DechunkedInput(environ["wsgi.input"])
+''', '        self._dechunk_input(environ)\n'),
+        (S, '    def make_environ(self) -> WSGIEnvironment:\n', r'''    def _dechunk_input(self, environ: WSGIEnvironment) -> None:
+        if environ.get("HTTP_TRANSFER_ENCODING", "").strip().lower() == "chunked":
+            environ["wsgi.input_terminated"] = True
+            environ["wsgi.input"] = DechunkedInput(environ["wsgi.input"])
+
+    def make_environ(self) -> WSGIEnvironment:
+'''),
+    ]},
+    {"name": 'r3-chunk-write-in-method', "edits": [
+        (S, _R3H_OLD_2, r'''            if data:
+                if chunk_response:
+                    self._write_chunk(data)
+                else:
+                    self.wfile.write(data)
+'''),
+        (S, '    def make_environ(self) -> WSGIEnvironment:\n', r'''    def _write_chunk(self, data: bytes) -> None:
+        self.wfile.write(hex(len(data))[2:].encode())
+        self.wfile.write(b"\r\n")
+        self.wfile.write(data)
+        self.wfile.write(b"\r\n")
+
+    def make_environ(self) -> WSGIEnvironment:
+'''),
+    ]},
+]
